@@ -124,11 +124,12 @@ const WORDS: [&str; 20] = [
     "foo", "bar", "baz", "fo", "o", "Foo", "BAR", "foobar", "x", "1", "12", "true", "null", "a.b",
     "f*o", "in", "is", "ob", "ar", "barbaz",
 ];
-const QUOTING_WORDS: [&str; 22] = [
+const QUOTING_WORDS: [&str; 24] = [
     "~", "*", "'", "\"", "yes", "1.0", "0x10", " lead", "trail ", "a: b", "a #b", "line1\nline2",
     "-", "?", "[x]", "{y}", "a\tb", "\tx",
     "aaaaaaaaaaaaaaaaaaaaaaaaaaaaaaa\u{e9}bbbbbbbb", "aaaaaaaaaaaaaaaaaaaaaaaaaaaaaa\u{65e5}\u{672c}bbbbbbbb",
     "0123456789012345678901234567890123456789", "aaaaaaaaaaaaaaaaaaaaaaaaaaaaaaaa\u{1f980}b",
+    "ends with newline\n", "\nstarts with newline",
 ];
 pub const REGEXES: [(&str, &[&str]); 16] = [
     ("fo+", &["foo", "xfoox", "f"]),
@@ -799,10 +800,49 @@ pub fn gen_big(rng: &mut Rng) -> Yaml {
     Yaml::Mapping(rule)
 }
 
+/// T7: regexes that compile alone but are large (counted repetitions of a Unicode class), two or
+/// three of them on one field, as a list or as sequence entries: together they exceed the size
+/// limit of a regex set.
+fn gen_t7(rng: &mut Rng) -> Yaml {
+    let n = *rng.pick(&[60usize, 100, 140, 150, 200]);
+    let icase = rng.chance(1, 4);
+    let pats: Vec<Yaml> = (0..2 + rng.below(2))
+        .map(|i| ystr(&format!("{}?\\pL{{{}}}{}", if icase { "i" } else { "" }, n, ["x", "y", "z"][i % 3])))
+        .collect();
+    let mut det = Mapping::new();
+    if rng.chance(1, 2) {
+        let mut m = Mapping::new();
+        m.insert(ystr("a"), Yaml::Sequence(pats));
+        det.insert(ystr("A"), Yaml::Mapping(m));
+    } else {
+        det.insert(
+            ystr("A"),
+            Yaml::Sequence(
+                pats.into_iter()
+                    .map(|p| {
+                        let mut m = Mapping::new();
+                        m.insert(ystr("a"), p);
+                        Yaml::Mapping(m)
+                    })
+                    .collect(),
+            ),
+        );
+    }
+    det.insert(ystr("condition"), ystr(*rng.pick(&["A", "not A", "all(A)"])));
+    let mut rule = Mapping::new();
+    rule.insert(ystr("detection"), Yaml::Mapping(det));
+    rule.insert(ystr("true_positives"), Yaml::Sequence(vec![]));
+    rule.insert(ystr("true_negatives"), Yaml::Sequence(vec![]));
+    Yaml::Mapping(rule)
+}
+
 /// A complete rule as a YAML value (detection + empty example lists).
 pub fn gen_rule(rng: &mut Rng, k: &Knobs) -> Yaml {
     if k.has(F_T6) || rng.chance(1, 150) {
         return gen_t6(rng);
+    }
+    if rng.chance(1, 300) {
+        return gen_t7(rng);
     }
     if rng.chance(1, 5) {
         return gen_structured(rng, k);
@@ -817,6 +857,14 @@ pub fn gen_rule(rng: &mut Rng, k: &Knobs) -> Yaml {
         } else {
             pool[4 + i].to_owned()
         });
+    }
+    // names that differ only in letter case are different identifiers
+    if rng.chance(1, 10) {
+        let base = names[rng.below(names.len())].clone();
+        let variant = if base.chars().any(|c| c.is_uppercase()) { base.to_lowercase() } else { base.to_uppercase() };
+        if !names.contains(&variant) {
+            names.push(variant);
+        }
     }
     let mut det = Mapping::new();
     for name in &names {
